@@ -57,3 +57,10 @@ REG.contract('C03', N, 'NinjaRule.write', variant='rsp-quoter', region=('If', 'r
              ensures=["implies(" + CMDSTYLE.replace('STYLE', 'self.rspfile_quote_style') + ", final('rspfile_quote_func') is cmd_quote)",
                       "implies(not " + CMDSTYLE.replace('STYLE', 'self.rspfile_quote_style') + ", final('rspfile_quote_func') is gcc_rsp_quote)"],
              floor=2, note='the rspfile_content of the rule is quoted by the same table')
+
+# ---- quote_arg / join_args on a POSIX host: exactly shlex.quote per word, words joined by one blank.  (The Windows variant of
+# quote_arg, defined under `if is_windows()`, is not live on this host and not under contract.)
+REG.contract('C03', 'mesonbuild/utils/universal.py', 'quote_arg', params={'arg': Str},
+             ensures=['result == shlex_quote(arg)'], result=Str, pure_expr='shlex_quote(arg)', floor=1,
+             dropped=['decorator lru_cache: the function is pure'],
+             note='POSIX: every word is quoted by shlex.quote and by nothing else (no word, however harmless it looks, bypasses it: ~ * ? are shell syntax in an unquoted word); shlex.quote itself is the standard library (its round trip through a POSIX shell is checked bounded)')
